@@ -118,6 +118,21 @@ func (g *Gen) c16Floats() []float64 {
 			}
 		}
 	}
+	// the layout of positional notation: every decimal with one or two significant digits at every scale
+	// from 1e-45 to 1e45 (thorough; a sample in quick): leading "0.000", trailing zeros, the point's position
+	for d := 1; d <= 99; d++ {
+		if d%10 == 0 {
+			continue
+		}
+		for e := -45; e <= 45; e++ {
+			if !g.thorough() && (d*7+e*13)%23 != 0 {
+				continue
+			}
+			if x, err := strconv.ParseFloat(strconv.Itoa(d)+"e"+strconv.Itoa(e), 64); err == nil {
+				add(x)
+			}
+		}
+	}
 	add(4294967296)
 	add(4294967295)
 	add(4294967297)
